@@ -1279,6 +1279,14 @@ where
     > {
         let agg_id = self.role_try_from(agg_id)?;
 
+        // The leader's share is the only one sent in the clear; every other aggregator receives a
+        // seed. Refuse a share that does not match the role implied by the aggregator ID.
+        if (agg_id == 0) != matches!(msg, Prio3InputShare::Leader { .. }) {
+            return Err(VdafError::Uncategorized(
+                "input share does not match aggregator role".to_string(),
+            ));
+        }
+
         let (measurement_share, proofs_share) = match msg {
             Prio3InputShare::Leader {
                 measurement_share,
